@@ -1,5 +1,5 @@
 """C12 — state-vector and density-matrix objects: symbol tables and frame condition."""
-from ..rules import pure, tables
+from ..rules import kernels, pure, tables
 
 META = {
     "title": "State-vector and density-matrix objects are faithful to their definitions",
@@ -28,3 +28,4 @@ def check(ctx):
                ["emu_sv.utils"])
     ctx.floor("TABLES-sv", 12)
     ctx.floor("PURE", 25)
+    kernels.symbolic_operator_builder(ctx)
